@@ -201,7 +201,14 @@ func decryptMsg(
 		}
 	}
 
+	if encryptedPayload == nil {
+		return nil, errors.Errorf("decryptMsg(): No encrypted payload")
+	}
+
 	checksumLength := ikesaKey.IntegInfo.GetOutputLength()
+	if len(encryptedPayload.EncryptedData) < checksumLength || len(msg) < checksumLength {
+		return nil, errors.Errorf("decryptMsg(): No sufficient bytes for checksum")
+	}
 	// Checksum
 	checksum := encryptedPayload.EncryptedData[len(encryptedPayload.EncryptedData)-checksumLength:]
 
